@@ -5,6 +5,7 @@ import hashlib
 import itertools
 
 from vlib import core, logic, sx
+from checks import histlib
 from vlib import proggen as pg
 
 META = {
@@ -203,7 +204,7 @@ def build_cases(rng, ctx):
         gs = [g for g in goals if pg.has_exists(g) and not pg.is_floundering_prone(g)]
         if gs:
             work.append((p, pg.to_text(p), gs))
-    for _ in range(ctx.n(40, 500)):
+    for _ in range(ctx.n(40, 220)):
         p = rng.choice(SHAPES)(rng)
         if rng.random() < 0.4:
             p = pg.permute(p, rng)
@@ -222,6 +223,43 @@ def solve_all(work, budgets, cpu, timeout):
     for (w, k), r in zip(meta, res):
         out[(w, k)] = r
     return out
+
+
+def _match_ty(pat, t, b):
+    hp = sx.head(pat)
+    if hp == "BV":
+        k = pat[1]
+        if k in b:
+            return sx.to_sexp(b[k]) == sx.to_sexp(t)
+        b[k] = t
+        return True
+    if pat == "Free":
+        return True
+    ht = sx.head(t)
+    if hp != ht:
+        return False
+    if hp == "App":
+        if str(pat[1]) != str(t[1]) or len(pat[2]) != len(t[2]):
+            return False
+        return all(_match_ty(x, y, b) for x, y in zip(pat[2], t[2]))
+    return sx.to_sexp(pat) == sx.to_sexp(t)
+
+
+def item_covers(a, b):
+    """item b is an instance of item a (binder universes ignored; Floundered covers nothing)"""
+    if a == "Floundered" or b == "Floundered":
+        return False
+    if len(a[2]) != len(b[2]):
+        return False
+    bind = {}
+    return all(_match_ty(x, y, bind) for x, y in zip(a[2], b[2]))
+
+
+def equivalent_enumerations(xs, ys):
+    """the two drained enumerations describe the same set of solutions: every item of one is an instance
+    of an item of the other (an earlier trivial answer makes the engine drop the remaining strands — the
+    green cut —, so on a used solver subsumed answers may be missing and the order may differ)"""
+    return all(any(item_covers(y, x) for y in ys) for x in xs) and all(any(item_covers(x, y) for x in xs) for y in ys)
 
 
 def used_solver_problems(steps):
@@ -339,8 +377,21 @@ def history_stage(ctx, rng, work, fresh, defs, exprs, emeta, mexprs, mmeta, hist
         # the ORDER of the answers may depend on what the tables already hold; the SET of a drained
         # enumeration may not
         both_drained = last.complete and flongest.complete and "Floundered" not in last.items and "Floundered" not in flongest.items
-        if both_drained and sorted(item_id(x) for x in last.items) != sorted(item_id(x) for x in flongest.items):
-            f = ctx.match_known(None, "F7-used-solver-coinductive") if any(t.coinductive for t in p.traits) else None
+        # class F7 (history dependence of SLG after a coinductive cycle), decided on (program, history)
+        hgoals, hidx = [], []
+        for t in gts:
+            gobj = next(g_ for g_ in goals if pg.goal_text(g_) == t)
+            if not hidx or hgoals[hidx[-1]] is not gobj:
+                if gobj not in hgoals:
+                    hgoals.append(gobj)
+                hidx.append(hgoals.index(gobj))
+        try:
+            in_f7 = bool(histlib.f7_class(p, hgoals, hidx))
+        except Exception:          # noqa: BLE001  (the predicate is total on the fragment; be safe)
+            in_f7 = False
+        desc["f7_class"] = in_f7
+        if both_drained and not equivalent_enumerations(last.items, flongest.items):
+            f = ctx.match_known(None, "F7-slg-coinductive-cycle") if in_f7 else None
             if f:
                 ctx.known_finding(f, gt)
                 hist["history:known-F7"] += 1
@@ -509,10 +560,20 @@ def run(ctx):
         verdicts[name] += 1
         if c in (0, 1):
             continue
-        cc, fl = logic.coq_codes(ctx.work, "cls_%s" % qn, {"P": defs[pname], "q": defs[qn]}, [(["P", "q"], logic.bb("f14_class P q"))], imports=imports)
+        cl_cands = [[pg.ty_model(t, p.symtab(), None) for t in tup] for tup in cand_tuples(rng, p, g, 40)] if pg.has_exists(g) else []
+        cl_expr = ("N.add (N.add (if f14_class P q then 1%%N else 0%%N) (if f14b_class P q then 2%%N else 0%%N)) "
+                   "(if f7q_query %d P q %s then 4%%N else 0%%N)" % (FUEL, ("(%s : list (list ty))" % sx.to_coq(cl_cands)) if cl_cands else "[]"))
+        cc, fl = logic.coq_codes(ctx.work, "cls_%s" % qn, {"P": defs[pname], "q": defs[qn]}, [(["P", "q"], cl_expr)], imports=imports)
+        bits = cc[0] if (not fl and cc[0] is not None) else 0
         f = None
-        if not fl and cc[0] == 1 and c == 11:
+        if bits & 1 and c == 11:
             f = ctx.match_known(None, "F14")
+        if f is None and bits & 2 and c == 12:
+            f = ctx.match_known(None, "F14b")
+        if f is None and bits & 4 and c == 12:
+            f = ctx.match_known(None, "F7q")
+        if f is None and c == 12 and desc.get("history") and desc.get("f7_class"):
+            f = ctx.match_known(None, "F7-slg-coinductive-cycle")
         if f:
             ctx.known_finding(f, desc["goal"])
             known_hits += 1
